@@ -41,4 +41,60 @@ C04_REG_EQ (Vec4<half>, "Vec4_half");
 C04_REG_EQ (Vec4<float>, "Vec4_float");
 C04_REG_EQ (Vec4<double>, "Vec4_double");
 
+// ---- == and != between vectors of DIFFERENT element types (template <class S> operator== (const VecN<S>&)): the result is the
+// AND / OR over slots of the scalar comparison under the usual arithmetic conversions - a right operand that is not representable
+// in the left operand's element type must not be narrowed first.  Added after seeded change C04-8.
+namespace
+{
+template <class T, class S> inline typename std::enable_if<std::is_floating_point<S>::value, S>::type unrepresentable_neighbour (T a)
+{
+    if (std::is_integral<T>::value) return (S) a + (S) 0.5;
+    return std::nextafter ((S) a, (S) 1e30); // S wider than T
+}
+template <class T, class S> inline typename std::enable_if<std::is_integral<S>::value, S>::type unrepresentable_neighbour (T a)
+{
+    return (S) ((S) a + (S) ((S) 1 << (8 * sizeof (T)))); // wider integer: differs by 2^bits(T)
+}
+template <class V, class W> void run_eq_mixed (mon::Ctx& c, uint64_t idx)
+{
+    using namespace c04;
+    typedef typename Tr<V>::E T;
+    typedef typename Tr<W>::E S;
+    constexpr int N = Tr<V>::N;
+    mon::Rng r = c.rng (idx);
+    T        a[N];
+    S        b[N];
+    for (int i = 0; i < N; ++i) { a[i] = (T) r.range (-100, 100); b[i] = (S) a[i]; }
+    const int k = (int) ((idx / 3) % N);
+    const char* cls = "mixed_types_all_slots_equal";
+    if (idx % 3 == 1) { b[k] = unrepresentable_neighbour<T, S> (a[k]); cls = "mixed_types_one_slot_differs_by_an_amount_lost_in_narrowing"; }
+    else if (idx % 3 == 2) { b[k] = (S) (a[k] + (T) 1); cls = "mixed_types_one_slot_differs_by_one"; }
+    c.cls (cls);
+    c.nontrivial (hash_combine (hash_vals (11, a, N), idx % (3 * N)));
+    const V va = make<V> (a);
+    const W vb = make<W> (b);
+    bool weq = true, wne = false;
+    for (int i = 0; i < N; ++i) { weq = weq && (a[i] == b[i]); wne = wne || (a[i] != b[i]); }
+    c.eval (2);
+    const bool geq = va == vb, gne = va != vb;
+    auto desc = [&] { return Obj ().kv ("class", cls).raw ("a", sarr (a, N)).raw ("b", sarr (b, N)).kv ("slot", k).kv ("==", geq).kv ("!=", gne).kv ("want==", weq).kv ("want!=", wne).str (); };
+    if (geq != weq) c.fail (std::string ("operator==(Vec<S>).") + Tr<V>::name () + ":" + cls, idx, desc);
+    if (gne != wne) c.fail (std::string ("operator!=(Vec<S>).") + Tr<V>::name () + ":" + cls, idx, desc);
+}
+} // namespace
+#define C04_REG_EQMIX(V, W, tag)                                                                                     \
+    MON_SUB_IDX ((run_eq_mixed<V, W>), "eq_mixed_" tag, 12000, 1200000)                                                \
+        .req ({"mixed_types_all_slots_equal", "mixed_types_one_slot_differs_by_an_amount_lost_in_narrowing", "mixed_types_one_slot_differs_by_one"}) \
+        .over ("==, != of a vector with a vector of another element type: AND / OR over slots of the scalar comparison; idx mod 3: equal / one slot differs by an amount that narrowing to the left type would lose / by one")
+C04_REG_EQMIX (Vec2<int>, Vec2<float>, "Vec2_int_float");
+C04_REG_EQMIX (Vec2<float>, Vec2<double>, "Vec2_float_double");
+C04_REG_EQMIX (Vec2<short>, Vec2<int>, "Vec2_short_int");
+C04_REG_EQMIX (Vec3<int>, Vec3<double>, "Vec3_int_double");
+C04_REG_EQMIX (Vec3<float>, Vec3<double>, "Vec3_float_double");
+C04_REG_EQMIX (Vec3<int>, Vec3<int64_t>, "Vec3_int_int64");
+C04_REG_EQMIX (Vec4<int>, Vec4<float>, "Vec4_int_float");
+C04_REG_EQMIX (Vec4<float>, Vec4<double>, "Vec4_float_double");
+C04_REG_EQMIX (Vec4<short>, Vec4<int>, "Vec4_short_int");
+C04_REG_EQMIX (Vec4<int>, Vec4<int64_t>, "Vec4_int_int64");
+
 MON_MAIN ("c04_aggregates")
